@@ -120,10 +120,11 @@ def counted_placed(ctx, flow, reach, copyfns):
             via = None
             for b, lab in g.control_deps(cn):
                 t = C.test_expr(b)
-                if t is None or lab != "true":
+                if t is None:
                     continue
                 for a in C.atoms_of(t):
-                    if isinstance(a, ast.Call):
+                    # the branch that leads to the count is not taken when the callee answers false
+                    if isinstance(a, ast.Call) and C.eval3(t, lambda x, a=a: False if x is a else None) is (lab != "true"):
                         for tg in C.targets_of(ctx, fn, a):
                             if callee_copies_before_true(ctx, tg, copyfns, set()):
                                 via = tg
@@ -149,15 +150,21 @@ def callee_copies_before_true(ctx, f, copyfns, seen):
         if any(g.dominates(c, rn) for c in copies if c is not None):
             ok_any = True
             continue
-        # `if X: copy(...)` followed by `return X`: a truthy X implies the copy ran
-        if isinstance(v, ast.Name):
+        # `if X: copy(...)` followed by `return X` (or `self.result = X; return self.result`): a truthy X implies the copy ran
+        vx = v
+        if isinstance(vx, ast.Attribute) and isinstance(vx.value, ast.Name) and vx.value.id == f.self_name:
+            defs_ = [n for n in own_nodes(f.node) if isinstance(n, ast.Assign) and any(isinstance(t, ast.Attribute) and t.attr == vx.attr and isinstance(t.value, ast.Name) and t.value.id == f.self_name for t in n.targets)]
+            if len(defs_) == 1 and g.dominates(C.stmt_node(ctx, f, defs_[0]), rn):
+                vx = defs_[0].value
+        if isinstance(vx, (ast.Name, ast.Compare, ast.UnaryOp)):
             implied = False
+            names_ = [x.id for x in ast.walk(vx) if isinstance(x, ast.Name)]
             for c in copies:
                 if c is None:
                     continue
                 for b, lab in g.direct_control_deps(c):
                     t = C.test_expr(b)
-                    if t is not None and norm(t) == v.id and lab == "true" and g.dominates(b, rn) and not C.names_assigned_between(ctx, f, b, rn, v.id):
+                    if t is not None and norm(t) == norm(vx) and lab == "true" and g.dominates(b, rn) and not any(C.names_assigned_between(ctx, f, b, rn, nm) for nm in names_):
                         implied = True
             if implied:
                 ok_any = True
